@@ -210,6 +210,9 @@ def unit_ctor(model):
             teams = [[Rc(ctx.number(f"mu_{i}_{j}"), ctx.number(f"sg_{i}_{j}"), name=(f"n{i}{j}" if (i + j) % 2 else None))
                       for j in range(n)] for i, n in enumerate(sizes)]
             single = sizes == (1,)
+            if len(sizes) >= 2:
+                # a stored snapshot next to the live player: two distinct objects carrying one id
+                teams[1][0].id = teams[0][0].id
             src = teams[0][0] if single else teams
             out = call(copy.deepcopy, src)
 
